@@ -9,6 +9,11 @@ from skchange.change_scores.base import BaseChangeScore
 from skchange.costs.base import BaseCost
 
 
+from skchange.change_scores import ChangeScore as _ChangeScore
+from skchange.anomaly_scores import LocalAnomalyScore as _LocalAnomalyScore
+from skchange.costs import L2Cost as _L2Cost
+
+
 class TableCost(BaseCost):
     """table[j][s][e] = cost of column j on [s, e)."""
 
@@ -70,6 +75,48 @@ class FnChangeScore(BaseChangeScore):
     def _evaluate(self, cuts):
         out = np.array([[float(self.fn(j, *map(int, c))) for j in range(self.p)] for c in cuts]).reshape(len(cuts), self.p)
         return out.astype(np.int64) if self.int_dtype else out
+
+
+class FnChangeScoreSub(_ChangeScore):
+    """A user-defined change score that DERIVES FROM the library's cost-based ChangeScore and overrides its evaluation: fn(j, s, k, e) -> int.  A detector must use the
+    object's own evaluate, not what its base class would have computed from the wrapped cost."""
+
+    def __init__(self, cost=None, fn=None, p=1, min_size_=1):
+        self.fn = fn
+        self.p = p
+        self.min_size_ = min_size_
+        super().__init__(cost if cost is not None else _L2Cost())
+
+    @property
+    def min_size(self):
+        return self.min_size_
+
+    def _fit(self, X, y=None):
+        self.cost.fit(X)
+        return self
+
+    def _evaluate(self, cuts):
+        return np.array([[float(self.fn(j, *map(int, c))) for j in range(self.p)] for c in cuts]).reshape(len(cuts), self.p)
+
+
+class FnLocalScoreSub(_LocalAnomalyScore):
+    """The same for a local anomaly score deriving from the library's cost-based LocalAnomalyScore: fn(j, s, a, b, e) -> int."""
+
+    def __init__(self, cost=None, fn=None, p=1, min_size_=1):
+        self.fn = fn
+        self.p = p
+        self.min_size_ = min_size_
+        super().__init__(cost if cost is not None else _L2Cost())
+
+    @property
+    def min_size(self):
+        return self.min_size_
+
+    def _fit(self, X, y=None):
+        return self
+
+    def _evaluate(self, cuts):
+        return np.array([[float(self.fn(j, *map(int, c))) for j in range(self.p)] for c in cuts]).reshape(len(cuts), self.p)
 
 
 class FnLocalScore(BaseLocalAnomalyScore):
